@@ -457,6 +457,8 @@ func generate(c *GenCtx) []Op {
 		genProjections(c, c.n(25000, 500000))
 	case "C02":
 		genArgs(c)
+		genSort(c)
+		genStrings(c)
 	case "C03":
 		genBytes(c)
 		genRandom(c, "rand", c.n(5000, 100000), 3)
@@ -465,6 +467,7 @@ func generate(c *GenCtx) []Op {
 		genLiterals(c)
 	case "C05":
 		genNumbers(c)
+		genOverflow(c)
 	case "C06":
 		genRandom(c, "rand", c.n(3000, 50000), 2)
 	case "C07":
@@ -472,6 +475,8 @@ func generate(c *GenCtx) []Op {
 	case "C08":
 		genCorpus(c)
 		genTokens(c)
+		genArgs(c)
+		genOverflow(c)
 		genRandom(c, "rand", c.n(5000, 100000), 3)
 	case "C09":
 		genCost(c)
@@ -495,6 +500,8 @@ func generate(c *GenCtx) []Op {
 		c.pairs = genIdentities(c)
 	case "C18":
 		genRandom(c, "rand", c.n(5000, 100000), 3)
+		genOverflow(c)
+		genArgs(c)
 	case "C19":
 		genLet(c)
 	case "C20":
